@@ -121,6 +121,11 @@ SUPPORTED = {
     "init:trailing-comma": TC + ":382",
     "init:bitfield": "test/samples/simple/bitfields.c:25",
     "init:nested-aggregate": "test/samples/simple/arrays.c:41, test/samples/simple/jitsample.c:17",
+    "param:pointer": "test/samples/simple/jitsample.c:4",
+    "param:struct-pointer": "test/samples/simple/alignment_issue.c:15",
+    "param:opaque-pointer": TC + ":252 (struct s; struct s* p; - a pointer to a not yet complete struct)",
+    "fn:pointer-return": "librt/libc/src/string/string.c:22",
+    "expr:pointer-param": "test/samples/simple/jitsample.c:4",
     "fptr:global": None,
     "fptr:array": "test/samples/simple/fpointer.c:37",
     "fptr:call": "test/samples/simple/fpointer.c:29",
